@@ -9,6 +9,7 @@ and the threshold comparison of electrical_signal (`>`/`<`).
 """
 from __future__ import annotations
 import itertools
+from functools import lru_cache
 import numpy as np
 
 from mcx.core.kernel import res
@@ -32,6 +33,21 @@ def lib():
 
 
 # ------------------------------------------------------------------ words / canonical forms
+class Lazy:
+    """message text that is only formatted if a violation is actually reported"""
+    __slots__ = ('f',)
+
+    def __init__(self, f):
+        self.f = f
+
+    def __str__(self):
+        return self.f()
+
+    def __format__(self, spec):
+        return self.f()
+
+
+@lru_cache(maxsize=1 << 14)
 def bits_of(code):
     return tuple(int(c) for c in bin(code)[3:])
 
@@ -131,6 +147,14 @@ def invalid(r):
     return None
 
 
+def show(r):
+    """printable form of a result (never a memory address)"""
+    if isinstance(r, lib()[0]):
+        d = getattr(r, 'data', None)
+        return f'binary_sequence(data={d!r})'
+    return f'{type(r).__name__} {r!r}'[:200]
+
+
 def bits_in(r):
     return tuple(r.data.tobytes())
 
@@ -160,7 +184,7 @@ def ops_for(mode):
     if mode in _OPS:
         return _OPS[mode]
     wl = 4 if mode == 'full' else 2
-    ops = [('~',)] + [('[]', k) for k in range(len(SLICES))]
+    ops = [('~',)] + [('[]', k) for k in range(len(SLICES))] + [('++',)]
     for wc in words(wl):
         n = wc.bit_length() - 1
         for f in forms_for(n, leaf=False):
@@ -200,6 +224,8 @@ def model_apply(bits, op):
         return bits + bits_of(op[1])
     if t == 'r+':
         return bits_of(op[1]) + bits
+    if t == '++':
+        return bits + bits
     raise KeyError(op)
 
 
@@ -213,12 +239,15 @@ def real_apply(a, op):
         return a + operand(op[1], op[2])[0]
     if t == 'r+':
         return operand(op[1], op[2])[0] + a
+    if t == '++':
+        return a + a
     raise KeyError(op)
 
 
 def op_name(op):
     t = op[0]
     if t == '~': return '~a'
+    if t == '++': return 'a + a'
     if t == '[]': return 'a' + SLICES[op[1]][0]
     if t in ('+', 'r+'):
         w = ''.join(map(str, bits_of(op[1])))
@@ -228,7 +257,7 @@ def op_name(op):
     return repr(op)
 
 
-OPK = {'~': 'invert', '[]': 'getitem', '+': 'add', 'r+': 'radd'}
+OPK = {'~': 'invert', '[]': 'getitem', '+': 'add', 'r+': 'radd', '++': 'add'}
 
 
 def build_leaf(code, form):
@@ -251,6 +280,8 @@ def expr(leaf_code, leaf_form, path):
         t = op[0]
         if t == '~':
             s = f'~{s}'
+        elif t == '++':
+            s = f'({s} + {s})'
         elif t == '[]':
             s = f'{s}{SLICES[op[1]][0]}'
         else:
@@ -299,20 +330,30 @@ def expand(case):
     n = len(bits)
     a_snap = freeze(a)          # operand write-protected for the whole expansion
     a_id_data = a.data
+    a_bytes = a_id_data.tobytes()
+
+    def a_same():
+        d = a.data
+        return d is a_id_data and d.dtype == np.uint8 and d.shape == (n,) and d.tobytes() == a_bytes
     state_laws(a, bits, V, here)
 
     succ = {}                   # key -> index of the first op producing it
     obs = []
     ntrans = 0
+    nd_broken = False           # after the first `radd:ndarray-left` failure of this case the remaining ndarray-left ops
+                                # are skipped (counted): numpy's failing coercion costs ~0.3 ms per element and op
     ops = ops_for(mode)
     for oi, op in enumerate(ops):
         t = op[0]
-        what = f'{here} :: {op_name(op)}'
+        what = Lazy(lambda op=op: f'{here} :: {op_name(op)}')
         # ---------------------------------------------------------------- operands that must be refused
         if t in ('bad+', 'badr+'):
             label, mk = INVALID_OPERANDS[op[1]]
             w = mk()
             ndleft = t == 'badr+' and isinstance(w, np.ndarray)
+            if ndleft and nd_broken:
+                stats['skipped.ndarray-left-after-failure'] = stats.get('skipped.ndarray-left-after-failure', 0) + 1
+                continue
             try:
                 r = (a + w) if t == 'bad+' else (w + a)
             except (ValueError, TypeError) as e:
@@ -321,12 +362,13 @@ def expand(case):
                 V(f'invalid-operand:wrong-exception:{type(e).__name__}', f'{what}: raised {type(e).__name__}: {e}')
                 obs.append('X')
             else:
-                V('radd:ndarray-left' if ndleft else f'invalid-operand:accepted:{label}',
-                  f'{what}: no exception, returned {type(r).__name__} {getattr(r, "data", r)!r}')
+                V('radd:ndarray-left' if ndleft else 'invalid-operand:accepted',
+                  f'{what}: no exception, returned {show(r)}')
+                nd_broken = nd_broken or ndleft
                 obs.append('A')
-            if not unchanged(a, a_snap):
+            if not a_same():
                 V('operand-changed:invalid-operand', f'{what}: left operand modified')
-                a, bits = replay(leaf_code, leaf_form, path); a_snap = freeze(a)
+                a, bits = replay(leaf_code, leaf_form, path); a_snap = freeze(a); a_id_data = a.data
             stats['ops.invalid-operand'] = stats.get('ops.invalid-operand', 0) + 1
             continue
         # ---------------------------------------------------------------- valid ops
@@ -335,6 +377,9 @@ def expand(case):
         if t in ('+', 'r+'):
             other, osnap = operand(op[1], op[2])
         ndleft = t == 'r+' and isinstance(other, np.ndarray)
+        if ndleft and nd_broken:
+            stats['skipped.ndarray-left-after-failure'] = stats.get('skipped.ndarray-left-after-failure', 0) + 1
+            continue
         try:
             exp = model_apply(bits, op)
         except IndexError:
@@ -347,17 +392,19 @@ def expand(case):
                 continue
             V('radd:ndarray-left' if ndleft else f'raises:{opk}:{type(e).__name__}',
               f'{what}: raised {type(e).__name__}: {str(e)[:160]}')
+            nd_broken = nd_broken or ndleft
             obs.append(('EXC', type(e).__name__))
-            if not unchanged(a, a_snap):
+            if not a_same():
                 V(f'operand-changed:{opk}:self', f'{what}: operand modified')
-                a, bits = replay(leaf_code, leaf_form, path); a_snap = freeze(a)
+                a, bits = replay(leaf_code, leaf_form, path); a_snap = freeze(a); a_id_data = a.data
             continue
         ntrans += 1
         stats['ops.' + opk] = stats.get('ops.' + opk, 0) + 1
         bad = invalid(r)
         if bad:
             V('radd:ndarray-left' if ndleft else f'closure:{opk}:{bad}',
-              f'{what}: result {type(r).__name__} {getattr(r, "data", r)!r} (dtype {getattr(getattr(r, "data", None), "dtype", None)})')
+              f'{what}: result {show(r)}')
+            nd_broken = nd_broken or ndleft
             obs.append(('INVALID', bad))
         else:
             got = bits_in(r)
@@ -389,21 +436,28 @@ def expand(case):
                         V('law:len-add', f'{what}: len {len(r)} != {lw} + {len(a)}')
                     if (r[:lw] == other) is not True:
                         V('law:prefix', f'{what}: (w+a)[:len(w)] == w is not True; (w+a)={bits_in(r)}')
+                elif t == '++':
+                    if len(r) != 2 * len(a):
+                        V('law:len-add', f'{what}: len {len(r)} != 2 * {len(a)}')
+                    if (r[:len(a)] == a) is not True:
+                        V('law:prefix', f'{what}: (a+a)[:len(a)] == a is not True; (a+a)={bits_in(r)}')
                 elif t == '~':
                     rr = ~r
                     if invalid(rr) or (rr == a) is not True or bits_in(rr) != bits:
-                        V('law:double-invert', f'{what}: ~~a = {getattr(rr, "data", rr)!r} != a')
+                        V('law:double-invert', f'{what}: ~~a = {show(rr)} != a')
                     if not (r.ones() == a.zeros()):
                         V('law:ones-invert', f'{what}: ones(~a)={r.ones()} zeros(a)={a.zeros()}')
             except Exception as e:  # noqa
                 V(f'law:raises:{opk}', f'{what}: checking the law raised {type(e).__name__}: {str(e)[:160]}')
         # operands unchanged
-        if not unchanged(a, a_snap):
+        if not a_same():
             V(f'operand-changed:{opk}:self', f'{what}: operand modified')
             a, bits = replay(leaf_code, leaf_form, path); a_snap = freeze(a); a_id_data = a.data
         if other is not None and not same(other, osnap):
             V(f'operand-changed:{opk}:other', f'{what}: the other operand was modified')
             _W.pop((op[1], op[2]), None)
+    if not unchanged(a, a_snap):
+        V('operand-changed:any:self', f'{here}: operand differs after the expansion')
     nt = code_of(bits) if (n >= 2 and 0 < sum(bits) < n) else False
     return res(viol=viol, obs=(bits, tuple(obs)), nontrivial=nt, stats=stats,
                payload=(sorted(succ.items()), ntrans))
@@ -465,7 +519,7 @@ def leaf_case(case):
             stats['leaf-unary-ops'] = stats.get('leaf-unary-ops', 0) + 1
             bad = invalid(r)
             if bad:
-                V(f'closure:{OPK[op[0]]}:{bad}', f'{what} :: {op_name(op)}: {getattr(r, "data", r)!r}')
+                V(f'closure:{OPK[op[0]]}:{bad}', f'{what} :: {op_name(op)}: {show(r)}')
                 continue
             if exp is not None and bits_in(r) != exp:
                 V(f'model:{OPK[op[0]]}', f'{what} :: {op_name(op)}: got {bits_in(r)}, model {exp}')
@@ -562,18 +616,26 @@ def long_case(case):
         for f in ('str', 'list', 'nd_bool', 'bseq'):
             if wc == 1 and f == 'str':
                 continue
-            ops += [('+', wc, f), ('r+', wc, f)]
+            ops.append(('+', wc, f))
+            if f != 'nd_bool' or n <= 4097:     # a failing numpy coercion (ndarray on the left) costs ~0.4 ms per element
+                ops.append(('r+', wc, f))
+    nd_broken = False
     for op in ops:
         ndleft = op[0] == 'r+' and op[2].startswith('nd')
+        if ndleft and nd_broken:
+            stats['skipped.ndarray-left-after-failure'] = stats.get('skipped.ndarray-left-after-failure', 0) + 1
+            continue
         exp = model_apply(bits, op)
         try:
             r = real_apply(a, op)
         except Exception as e:  # noqa
             V('radd:ndarray-left' if ndleft else f'raises:{OPK[op[0]]}:{type(e).__name__}', f'{what} :: {op_name(op)}: {type(e).__name__}: {str(e)[:120]}')
+            nd_broken = nd_broken or ndleft
             continue
         bad = invalid(r)
         if bad:
             V('radd:ndarray-left' if ndleft else f'closure:{OPK[op[0]]}:{bad}', f'{what} :: {op_name(op)}')
+            nd_broken = nd_broken or ndleft
             continue
         stats['long-ops'] = stats.get('long-ops', 0) + 1
         if bits_in(r) != exp:
@@ -671,11 +733,11 @@ def cmp_one(x, S, N, th, kind, ref, in_class, what, V, stats):
             continue
         stats['cmp.evaluations'] = stats.get('cmp.evaluations', 0) + 1
         if kind == 'mismatch':
-            V('cmp:mismatch-accepted', f'{what} {opn}: mismatched lengths accepted, returned {getattr(r, "data", r)!r}')
+            V('cmp:mismatch-accepted', f'{what} {opn}: mismatched lengths accepted, returned {show(r)}')
             continue
         bad = invalid(r)
         if bad:
-            V(f'closure:cmp:{bad}', f'{what} {opn}: result {type(r).__name__} {getattr(r, "data", r)!r}')
+            V(f'closure:cmp:{bad}', f'{what} {opn}: result {show(r)}')
             continue
         if len(r) != len(S):
             V('cmp:length', f'{what} {opn}: result length {len(r)} != {len(S)}')
@@ -726,7 +788,7 @@ def cmp_case(case):
         x = E(list(Sw)) if Nw is None else E(list(Sw), list(Nw))
         for label, mk, kind, ref in ths:
             th = mk()
-            what = f'electrical_signal({list(Sw)}, noise={None if Nw is None else list(Nw)}) vs th={label}'
+            what = Lazy(lambda Nw=Nw, label=label: f'electrical_signal({list(Sw)}, noise={None if Nw is None else list(Nw)}) vs th={label}')
             obs.append(cmp_one(x, S, N, th, kind, ref, cls in ('nonneg', 'nonneg-int'), what, V, stats))
     if stats.get('cmp.noise-decides') or stats.get('cmp.in-clause'):
         nt = (cls, Sw)
@@ -757,23 +819,22 @@ def cmp_long_case(case):
 
 
 # ------------------------------------------------------------------ driver
-def bfs(ctx, name, leaves, depth, first_mode='full'):
-    """leaves: list of (code, form). Executes every transition out of every state at distance < depth from a leaf.
-    Returns (states, transitions)."""
+def bfs(ctx, name, leaves, depth, expand_maxlen=None):
+    """leaves: list of (code, form). Level 0 = the leaves (op set 'full'), level k+1 = the NEW canonical states produced
+    by level k (op set 'deep'); every op is executed from every state of the levels < depth.  `expand_maxlen`: states
+    of the levels >= 1 longer than this are recorded but not expanded (tier bound).  Returns (states, transitions)."""
     seen = set()
     frontier = []
     for code, form in leaves:
-        k = code * 4
-        if k not in seen:
-            seen.add(k)
+        seen.add(code * 4)
         frontier.append((code, form, ()))
     transitions = 0
     for level in range(depth):
-        mode = first_mode if level == 0 else 'deep'
+        mode = 'full' if level == 0 else 'deep'
         ops = ops_for(mode)
         cases = [(mode, c, f, p) for c, f, p in frontier]
         last = level == depth - 1
-        payloads = ctx.pmap(f'{name}.level{level}', expand, cases, horizon=60, quiet=True)
+        payloads = ctx.pmap(f'{name}.level{level}', expand, cases, horizon=120, quiet=True)
         nxt = []
         for (c, f, p), pl in zip(frontier, payloads):
             if pl is None:
@@ -783,7 +844,7 @@ def bfs(ctx, name, leaves, depth, first_mode='full'):
             for k, oi in succ:
                 if k not in seen:
                     seen.add(k)
-                    if not last:
+                    if not last and (expand_maxlen is None or (k >> 2).bit_length() - 1 <= expand_maxlen):
                         nxt.append((c, f, p + (ops[oi],)))
         print(f'[C15] {name} level {level}: expanded={len(frontier)} ops/state={len(ops)} states={len(seen)} '
               f'transitions={transitions} next={len(nxt)}', flush=True)
@@ -795,44 +856,49 @@ def bfs(ctx, name, leaves, depth, first_mode='full'):
 
 def run(ctx):
     thorough = not ctx.quick
-    ctx.rule('C15: (1) every word of length 0..12 constructed in every accepted container form (str plain/spaced/comma, list, tuple, '
-             'bool list, ndarray bool/int64/float64/uint8, scalars for length 1) + unary ops from every form; (2) BFS over expression '
-             'programs: every op (a+w, w+a for w in every accepted form [4 str, 3 list/tuple, 4 ndarray, binary_sequence] of every word of '
-             'length <= 4 at the first level, <= 2 deeper; ~a; 7 slices; 18 invalid operands in both orders at the first level) executed on the '
-             'real object rebuilt by replaying its path, in lock-step with a tuple-of-bits model; states deduplicated by (word, layout flags); '
-             'depth 2 from every leaf (quick), plus depth 4 from the leaves of length <= 6 with its own visited set and level-0 expansion of every '
-             'leaf from EVERY container form (thorough); (3) table + generated invalid constructions; (4) long words (seeded content); '
-             '(5) x > th, x < th over value alphabets ^ n (n<=3) x noise words x threshold forms')
+    l1max = None if thorough else 14
+    ctx.rule('C15: (1) every word of length 0..12 constructed in every accepted container form (str plain/spaced/comma/comma+space, list, '
+             'tuple, bool list, ndarray bool/int64/float64/uint8, five scalar spellings for length 1) + the 8 unary ops from every form; '
+             '(2) BFS over expression programs: every op (a+w, w+a for w in every accepted form [4 str, 3 list/tuple, 4 ndarray, '
+             'binary_sequence] of every word of length <= 4 at the first level, <= 2 deeper; ~a; 7 slices; 18 invalid operands in both '
+             'orders at the first level) executed on the real object rebuilt by replaying its path from the leaf, in lock-step with a '
+             'tuple-of-bits model; states deduplicated by canonical form (word, layout flags of .data); '
+             + ('depth 2 from every leaf of length <= 12, plus depth 4 from the leaves of length <= 6 with its own visited set, plus the '
+                'first-level expansion of the leaves of length <= 8 from EVERY container form; ' if thorough else
+                'quick: depth 1 from every leaf of length <= 12 and depth 2 from the leaves of length <= 10 (second-level states up to length 14); ')
+             + '(3) table + generated invalid constructions; (4) long words up to 65537 bits (fixed patterns + seeded content); '
+             '(5) x > th, x < th over value alphabets ^ n (n <= ' + ('3' if thorough else '2') + ') x every noise word x threshold forms')
     ctx.assume('the behaviour of a binary_sequence depends only on its .data array (bytes, dtype, shape, contiguity/alignment flags), which is '
                'what the canonical form records; execution_time is ignored')
     ctx.assume('comparison clause read conservatively: equality with (S+N) > th is demanded only where S >= 0, S+N >= 0 and th >= 0 '
-               '(real); elsewhere only validity and length')
-    # -- regression cases for the known defect (ndarray on the left)
+               '(all real); elsewhere only validity and length (cases with S >= 0 but S+N < 0 are counted in stats cmp.negative-total*)')
+    ctx.assume('a[0] / a[-1] on the empty sequence: the statement is silent, IndexError accepted; the empty string is not an accepted spelling')
+    # -- regression case for the known defect (ndarray on the left of +)
     ctx.run_case('regress', expand, ('deep', 0b110, 'list', ()))
 
     # (3) invalid constructions
     inv = invalid_constructions()
-    ctx.pmap('invalid-constructions', invalid_construction_case, inv, horizon=20)
+    ctx.pmap('invalid-constructions', invalid_construction_case, inv, horizon=60)
 
     # (1) leaves
     leaves = list(words(MAXLEAF))
-    pl = ctx.pmap('leaves', leaf_case, leaves, horizon=30)
+    pl = ctx.pmap('leaves', leaf_case, leaves, horizon=60)
     leaf_keys = set()
     for x in pl:
         leaf_keys.update(x or [])
+    ctx.extra['leaf_canonical_forms'] = len(leaf_keys)
 
-    # (2) BFS, depth 2 from every leaf; starting object built from one form per leaf (round-robin over the forms, every
+    # (2) BFS from every leaf; the starting object is built from one form per leaf (round-robin over the forms; every
     # form was verified in (1) to give the identical canonical object)
     def rr(code):
         f = forms_for(code.bit_length() - 1, leaf=True)
         return f[code % len(f)]
-    st, tr = bfs(ctx, 'bfs', [(c, rr(c)) for c in leaves], depth=2)
+    st, tr = bfs(ctx, 'bfs', [(c, rr(c)) for c in leaves], depth=2, expand_maxlen=l1max)
     ctx.graph(states=st, transitions=tr)
-    ctx.extra['bfs_all_leaves'] = {'leaves': len(leaves), 'depth': 2, 'states': st, 'transitions': tr}
+    ctx.extra['bfs_all_leaves'] = {'leaves': len(leaves), 'depth': 2, 'second_level_maxlen': l1max, 'states': st, 'transitions': tr}
     if thorough:
-        # level-0 expansion of every leaf from EVERY container form
-        cases = [('full', c, f, ()) for c in leaves for f in forms_for(c.bit_length() - 1, leaf=True)]
-        pls = ctx.pmap('bfs-everyform.level0', expand, cases, horizon=60, quiet=True)
+        cases = [('full', c, f, ()) for c in words(8) for f in forms_for(c.bit_length() - 1, leaf=True)]
+        pls = ctx.pmap('bfs-everyform.level0', expand, cases, horizon=120, quiet=True)
         tr2 = sum(p[1] for p in pls if p)
         ctx.graph(states=0, transitions=tr2)
         ctx.extra['bfs_every_form'] = {'starts': len(cases), 'transitions': tr2}
@@ -847,13 +913,13 @@ def run(ctx):
         for kind in ('zeros', 'ones', 'alt', 'rnd0', 'rnd1'):
             for form in (('str', 'list', 'nd_bool', 'nd_u8', 'nd_float') if n <= 4097 else ('nd_u8', 'str')):
                 longs.append((n, kind, ctx.seed, form))
-    ctx.pmap('long-words', long_case, longs, horizon=60)
+    ctx.pmap('long-words', long_case, longs, horizon=120)
 
     # (5) comparisons
     cm = []
-    for n in (1, 2, 3):
+    for n in ((1, 2, 3) if thorough else (1, 2)):
         for cls in CMP:
             for Sw in itertools.product(CMP[cls][0], repeat=n):
                 cm.append((cls, Sw))
-    ctx.pmap('compare', cmp_case, cm, horizon=60)
+    ctx.pmap('compare', cmp_case, cm, horizon=120)
     ctx.pmap('compare-long', cmp_long_case, [(n, k, ctx.seed) for n in (16, 1000, 4096) for k in range(4)], horizon=60)
